@@ -2,6 +2,7 @@ package main
 
 import (
 	"fmt"
+	"go/constant"
 	"go/token"
 	"go/types"
 	"sort"
@@ -56,6 +57,7 @@ type c19 struct {
 	closeSeen   map[*ssa.Function]bool
 	undSeen     map[string]bool
 	busyTargets bool
+	extTargets  bool
 	aliasMemo   map[string]string
 	onceID      string
 	seamMemo    map[string]*ssa.Function
@@ -97,6 +99,7 @@ func checkC19(c *Ctx) {
 		"(X3) the SVID field is written only under the write lock and read under the lock; every value stored is result 0 of a fetcher call whose error is known nil (or the value known non-nil) at the store, followed through parameters of helpers to all their call sites; GetX509SVID returns a value loaded from the field. " +
 		"(X4) inside each top-level fetcher, by backward value provenance through helpers (context-sensitive): the CSR handed to the request call, the PrivateKey of the SVID built, and the key entry of the map given to the single dir.Write all derive from ONE key-generation call (crypto */GenerateKey) executed in this fetch, no key comes from a field/global; the SVID's Certificates and the chain entry derive from this request's result, and a third entry from CurrentTrustAnchors. " +
 		"(X5/X6) time values are evaluated to linear forms over {cert.NotBefore, cert.NotAfter, now} through helpers and loop phis: every renewal point the rotation code compares the clock with or sleeps towards is (1-a)*NotBefore + a*NotAfter of ONE certificate with a <= 1/2; every clock wait not on the error path is provably <= 1 minute (constant, min(), or a guarded clamp), every wait on the error path of a renewal is exactly 10 s; no time.Now/After/Sleep/NewTimer in the rotation code (injected clock). " +
+		"(X7) every return of GetX509SVID (followed through wrappers, func adapters and helpers returning the pair) that carries a nil error carries an SVID known non-nil there: the returned value (or another load of the same field / variable) was tested against nil on every path to the return, or a flag returned by the helper that produced it implies it, or it is the address of a copy guarded by a flag field; returning the served field untested (it is nil until the first successful fetch, and Run signals readiness after a FAILED initial fetch too) or a nil constant with a nil error is a VIOLATION, other shapes are UNDECIDED. " +
 		"NOT decided: the renewal law over all validity windows and failure sequences (only its constants and wiring), that the certificate used for the renewal point is the leaf of the served SVID, the order of store and close inside the critical section."
 	r.Assumptions = append(r.Assumptions, "type-based lock/channel identity", "crypto GenerateKey functions return a fresh key on every call (crypto/rand)",
 		"unexported functions of crypto/spiffe are only called from the call sites visible in the package")
@@ -104,6 +107,7 @@ func checkC19(c *Ctx) {
 	r.Rule("C19.X2-ready-once", "Run closes the readiness channel exactly once on every path that started the fetch; Ready selects on it and ctx", 3)
 	r.Rule("C19.X3-svid", "SVID field guarded; stores only of successful fetch results; GetX509SVID serves it", 4)
 	r.Rule("C19.X4-fresh-key", "one key generated per fetch flows to CSR, SVID.PrivateKey and key file; one dir.Write with key+chain+anchors", 3)
+	r.Rule("C19.X7-svid-or-error", "GetX509SVID never returns a nil SVID together with a nil error", 1)
 	r.Rule("C19.X6-renewal-args", "every renewal point is derived from NotBefore and NotAfter of one certificate", 1)
 	r.Rule("C19.X5-constants", "renewal point at or before half-life; wake-up <= 1 minute; retry 10 s; injected clock", 3)
 
@@ -123,6 +127,7 @@ func checkC19(c *Ctx) {
 	x.checkX3()
 	x.checkX4()
 	x.checkX5()
+	x.checkX7()
 	x.flushUndecided()
 
 	// the file set is published by dir.Write: its crash-consistency rules (shared with C18)
@@ -1020,6 +1025,9 @@ func (x *c19) callCloseSum(ci ssa.CallInstruction) uint64 {
 		for _, t := range ts {
 			sum |= x.closeSummary(t.fn)
 		}
+		if sum == 0 {
+			return 1 << 0
+		}
 		if sum&^(1<<0|1<<3) == 0 {
 			return sum
 		}
@@ -1802,4 +1810,500 @@ func c18RunWriterAs(c *Ctx, prefix string) {
 	cfg := &c18Cfg{Target: fid("target"), Prev: fid("prev"), Base: fid("base"), TargetDir: fid("targetDir"),
 		Frozen: map[string]bool{fid("target"): true, fid("base"): true, fid("targetDir"): true}, Rules: R}
 	c18CheckWriter(p, r, write, FuncName(p, write), cfg)
+}
+
+// ---------------------------------------------------------------- X7
+
+// c19RetValue: the value result i of ret has on the path through ret's block
+// (functions with defers spill results into slots and reload them).
+func c19RetValue(ret *ssa.Return, i int) ssa.Value {
+	v := ret.Results[i]
+	ld, ok := v.(*ssa.UnOp)
+	if !ok || ld.Op != token.MUL {
+		return v
+	}
+	slot, ok := ld.X.(*ssa.Alloc)
+	if !ok {
+		return v
+	}
+	// the store of this return statement: the last one in a dominating chain of blocks
+	for b := ret.Block(); b != nil; b = b.Idom() {
+		for j := len(b.Instrs) - 1; j >= 0; j-- {
+			if st, ok := b.Instrs[j].(*ssa.Store); ok && st.Addr == ssa.Value(slot) {
+				return st.Val
+			}
+		}
+		if len(b.Preds) != 1 {
+			break
+		}
+	}
+	if vals := unspill(v); len(vals) == 1 {
+		return vals[0]
+	}
+	return v
+}
+
+// sameSource: a and b denote the same variable: the same SSA value, loads of
+// the same local cell / captured variable, or loads of the same struct field.
+func c19SameSource(a, b ssa.Value) bool {
+	if a == b {
+		return true
+	}
+	la, ok1 := a.(*ssa.UnOp)
+	lb, ok2 := b.(*ssa.UnOp)
+	if !ok1 || !ok2 || la.Op != token.MUL || lb.Op != token.MUL {
+		return false
+	}
+	if la.X == lb.X {
+		return true
+	}
+	fa, ok1 := la.X.(*ssa.FieldAddr)
+	fb, ok2 := lb.X.(*ssa.FieldAddr)
+	return ok1 && ok2 && fieldIDOfAddr(fa) == fieldIDOfAddr(fb)
+}
+
+// nilFact: what the branches dominating block b say about v: +1 non-nil, -1 nil, 0 nothing.
+func (x *c19) nilFact(b *ssa.BasicBlock, v ssa.Value, depth int) int {
+	return x.nilFactConds(domConds(b), v, depth)
+}
+
+// edgeConds: the conditions known on the CFG edge from -> to.
+func c19EdgeConds(from, to *ssa.BasicBlock) []DomCond {
+	conds := append([]DomCond{}, domConds(from)...)
+	if len(from.Instrs) > 0 && len(from.Succs) == 2 && from.Succs[0] != from.Succs[1] {
+		if ifi, ok := from.Instrs[len(from.Instrs)-1].(*ssa.If); ok {
+			if from.Succs[0] == to {
+				conds = append(conds, DomCond{ifi, true})
+			} else if from.Succs[1] == to {
+				conds = append(conds, DomCond{ifi, false})
+			}
+		}
+	}
+	return conds
+}
+
+func (x *c19) nilFactConds(conds []DomCond, v ssa.Value, depth int) int {
+	if depth > 4 {
+		return 0
+	}
+	for _, dc := range conds {
+		if cmp, ok := decodeCond(dc.If.Cond, dc.Branch); ok && (cmp.Op == token.EQL || cmp.Op == token.NEQ) {
+			var o ssa.Value
+			switch {
+			case isNilConst(cmp.Y):
+				o = cmp.X
+			case isNilConst(cmp.X):
+				o = cmp.Y
+			}
+			if o != nil && c19SameSource(o, v) {
+				if cmp.Op == token.NEQ {
+					return 1
+				}
+				return -1
+			}
+			// an error variable known nil that is only left nil where v is non-nil:
+			// if <v is missing> { err = errors.New(..) } ... if err != nil { return } ... return v, nil
+			if phi, ok := o.(*ssa.Phi); ok && cmp.Op == token.EQL {
+				all := len(phi.Edges) > 0
+				for i, ed := range phi.Edges {
+					switch {
+					case c19ErrCertain(ed):
+					case isNilConst(ed) && i < len(phi.Block().Preds) && x.nilFactConds(c19EdgeConds(phi.Block().Preds[i], phi.Block()), v, depth+1) == 1:
+					default:
+						all = false
+					}
+				}
+				if all {
+					return 1
+				}
+			}
+			continue
+		}
+		// a flag produced together with v by a helper: v, ok := lookup(); if ok {...}
+		cond, want := dc.If.Cond, dc.Branch
+		for {
+			u, ok := cond.(*ssa.UnOp)
+			if !ok || u.Op != token.NOT {
+				break
+			}
+			cond, want = u.X, !want
+		}
+		fe, ok1 := cond.(*ssa.Extract)
+		ve, ok2 := v.(*ssa.Extract)
+		if !ok1 || !ok2 || fe.Tuple != ve.Tuple || !want || depth > 3 {
+			continue
+		}
+		call, ok := fe.Tuple.(*ssa.Call)
+		if !ok {
+			continue
+		}
+		implies, n := true, 0
+		for _, nf := range x.enter(call, nil) {
+			allInstrs(nf.fn, func(in ssa.Instruction) {
+				ret, ok := in.(*ssa.Return)
+				if !ok || fe.Index >= len(ret.Results) || ve.Index >= len(ret.Results) {
+					return
+				}
+				n++
+				flag, val := c19RetValue(ret, fe.Index), c19RetValue(ret, ve.Index)
+				if c, ok := flag.(*ssa.Const); ok && c.Value != nil && c.Value.Kind() == constant.Bool && !constant.BoolVal(c.Value) {
+					return // flag false on this return
+				}
+				if bo, ok := flag.(*ssa.BinOp); ok && bo.Op == token.NEQ && ((isNilConst(bo.Y) && c19SameSource(bo.X, val)) || (isNilConst(bo.X) && c19SameSource(bo.Y, val))) {
+					return // flag := val != nil
+				}
+				if x.nilFact(ret.Block(), val, depth+1) == 1 {
+					return
+				}
+				implies = false
+			})
+		}
+		if implies && n > 0 {
+			return 1
+		}
+	}
+	return 0
+}
+
+// errNonNil: e is certainly a non-nil error (a freshly made one).
+func c19ErrCertain(e ssa.Value) bool {
+	switch t := e.(type) {
+	case *ssa.Call:
+		if obj := calleeObj(t); obj != nil && obj.Pkg() != nil {
+			switch obj.Pkg().Path() + "." + obj.Name() {
+			case "errors.New", "fmt.Errorf", "errors.Join":
+				return true
+			}
+		}
+	case *ssa.MakeInterface:
+		return true
+	}
+	return false
+}
+
+// checkPair examines one return of the getter (or of a function whose result
+// pair it forwards). verdicts: bad (definite), und (not decided).
+func (x *c19) svidOrError(fn *ssa.Function, fr *c19Frame, depth int, bad, und *[]string, n *int) {
+	allInstrs(fn, func(in ssa.Instruction) {
+		ret, ok := in.(*ssa.Return)
+		if !ok || len(ret.Results) != 2 || ret.Block() == fn.Recover {
+			return // (the recover block only runs after a recovered panic)
+		}
+		v, e := c19RetValue(ret, 0), c19RetValue(ret, 1)
+		at := x.pos(ret)
+		// the pair of another function forwarded unchanged
+		if ve, ok := v.(*ssa.Extract); ok {
+			if ee, ok := e.(*ssa.Extract); ok && ee.Tuple == ve.Tuple && ve.Index == 0 && ee.Index == 1 {
+				if call, ok := ve.Tuple.(*ssa.Call); ok && depth < 5 {
+					frames := x.enter(call, fr)
+					if len(frames) == 0 {
+						*und = append(*und, "the pair returned at "+at+" comes from a call that is not followed ("+callDesc(call)+")")
+						return
+					}
+					for _, nf := range frames {
+						x.svidOrError(nf.fn, nf, depth+1, bad, und, n)
+					}
+					return
+				}
+			}
+		}
+		*n++
+		if c19ErrCertain(e) || x.nilFact(ret.Block(), e, 0) == 1 {
+			return // an error is returned
+		}
+		if !isNilConst(e) && x.errorIffNil(ret, v, e) {
+			return // the error variable is set exactly when the SVID is nil
+		}
+		if !isNilConst(e) && x.nilFact(ret.Block(), e, 0) == 0 {
+			// an error variable of unknown nil-ness: the SVID must be non-nil for the nil case
+			if isNilConst(v) || x.nilFact(ret.Block(), v, 0) != 1 {
+				if _, isAlloc := v.(*ssa.Alloc); !isAlloc {
+					*und = append(*und, "the return at "+at+" pairs an SVID not known non-nil with an error not known non-nil")
+				}
+			}
+			return
+		}
+		// nil error: the SVID must be known non-nil
+		switch {
+		case isNilConst(v):
+			*bad = append(*bad, "returns (nil, nil) at "+at)
+		case x.nilFact(ret.Block(), v, 0) == 1:
+		case x.nilFact(ret.Block(), v, 0) == -1:
+			*bad = append(*bad, "returns the SVID with a nil error at "+at+" exactly when it is nil")
+		default:
+			if a, ok := v.(*ssa.Alloc); ok {
+				// the address of a copy: never nil; meaningful only behind the flag kept next to the value
+				flag := false
+				for _, dc := range domConds(ret.Block()) {
+					cond := dc.If.Cond
+					for {
+						u, ok := cond.(*ssa.UnOp)
+						if !ok || u.Op != token.NOT {
+							break
+						}
+						cond = u.X
+					}
+					if id, _, ok := fieldOfValue(cond); ok && strings.HasPrefix(id.Type, x.pkg+".") {
+						flag = true
+					}
+				}
+				if !flag && c19IsSVIDPtr(a.Type()) {
+					*und = append(*und, "returns the address of a copy at "+at+" without a recognised 'has an SVID' test")
+				}
+				return
+			}
+			served := false
+			for _, o := range x.origins(v, fr) {
+				if o.kind == "field" && o.fid == x.svid {
+					served = true
+				}
+			}
+			if served && x.condsMayConcern(ret.Block(), v) {
+				*und = append(*und, "the SVID returned with a nil error at "+at+" is guarded by a test whose relation to it is not understood")
+			} else if served {
+				*bad = append(*bad, "returns "+x.svid.String()+" with a nil error at "+at+" without testing it for nil: after a failed initial fetch (readiness is signalled, nothing stored) consumers get (nil, nil) instead of an error")
+			} else {
+				*und = append(*und, "the SVID returned with a nil error at "+at+" is not known non-nil")
+			}
+		}
+	})
+}
+
+func (x *c19) checkX7() {
+	r, p := x.r, x.p
+	for _, gx := range x.getters {
+		var bad, und []string
+		n := 0
+		x.svidOrError(gx, nil, 0, &bad, &und, &n)
+		construct := x.name(gx) + " SVID or error"
+		switch {
+		case len(bad) > 0:
+			r.Violation("C19.X7-svid-or-error", construct, p.Pos(gx.Pos()), "GetX509SVID "+strings.Join(c19Dedup(bad), "; "))
+		default:
+			r.OK("C19.X7-svid-or-error", construct, p.Pos(gx.Pos()), fmt.Sprintf("%d return(s): a nil error only with an SVID tested non-nil", n))
+			for _, u := range c19Dedup(und) {
+				x.undecide("%s: %s", construct, u)
+			}
+			if n == 0 && len(und) == 0 {
+				x.undecide("%s: no return examined", construct)
+			}
+		}
+	}
+}
+
+// errorIffNil: the error returned next to v is a variable that is assigned a
+// fresh error on the nil side of a test `v == nil` which always runs (and is
+// nil otherwise): `if svid == nil { err = errors.New(..) }; return svid, err`,
+// with registers (phi of the two sides) or variable cells (named results of a
+// function with defers, variables captured by a callback literal).
+func (x *c19) errorIffNil(ret *ssa.Return, v, e ssa.Value) bool {
+	// the nil-edge successor of a test of something denoting v
+	nilSide := func(b *ssa.BasicBlock, same func(ssa.Value) bool) (*ssa.If, bool) {
+		if len(b.Preds) != 1 {
+			return nil, false
+		}
+		pb := b.Preds[0]
+		if len(pb.Instrs) == 0 || len(pb.Succs) != 2 {
+			return nil, false
+		}
+		ifi, ok := pb.Instrs[len(pb.Instrs)-1].(*ssa.If)
+		if !ok {
+			return nil, false
+		}
+		cmp, ok := decodeCond(ifi.Cond, pb.Succs[0] == b)
+		if !ok || cmp.Op != token.EQL {
+			return nil, false
+		}
+		switch {
+		case isNilConst(cmp.Y) && same(cmp.X), isNilConst(cmp.X) && same(cmp.Y):
+			return ifi, true
+		}
+		return nil, false
+	}
+	// registers: e = phi [nil on the non-nil side, fresh error on the nil side]
+	if phi, ok := e.(*ssa.Phi); ok {
+		for i, ed := range phi.Edges {
+			if i >= len(phi.Block().Preds) {
+				return false
+			}
+			pred := phi.Block().Preds[i]
+			switch {
+			case c19ErrCertain(ed):
+			case isNilConst(ed):
+				// on this edge v must be non-nil
+				if x.nilFactConds(c19EdgeConds(pred, phi.Block()), v, 0) != 1 {
+					return false
+				}
+			default:
+				return false
+			}
+		}
+		return len(phi.Edges) > 0
+	}
+	// cells
+	le, ok := e.(*ssa.UnOp)
+	if !ok || le.Op != token.MUL {
+		return false
+	}
+	ce, ok := le.X.(*ssa.Alloc)
+	if !ok {
+		return false
+	}
+	var cv *ssa.Alloc
+	if lv, ok := v.(*ssa.UnOp); ok && lv.Op == token.MUL {
+		cv, _ = lv.X.(*ssa.Alloc)
+	}
+	// same: o denotes v — v itself, a load of v's cell (directly or as a captured
+	// variable), or the value last stored into v's cell in that function
+	sameIn := func(fn *ssa.Function) func(ssa.Value) bool {
+		return func(o ssa.Value) bool {
+			if c19SameSource(o, v) {
+				return true
+			}
+			if cv == nil {
+				return false
+			}
+			if lo, ok := o.(*ssa.UnOp); ok && lo.Op == token.MUL {
+				if cellOf(lo.X) == cv {
+					return true
+				}
+			}
+			for _, st := range c19CellStores(cv) {
+				if st.Parent() == fn && (st.Val == o || c19SameSource(st.Val, o)) {
+					return true
+				}
+			}
+			return false
+		}
+	}
+	n := 0
+	for _, st := range c19CellStores(ce) {
+		if isNilConst(st.Val) {
+			continue
+		}
+		if ld, ok := st.Val.(*ssa.UnOp); ok && ld.Op == token.MUL && cellOf(ld.X) == ce {
+			continue // `return svid, err` of named results stores the variable into itself
+		}
+		if !c19ErrCertain(st.Val) {
+			return false
+		}
+		fn := st.Parent()
+		ifi, ok := nilSide(st.Block(), sameIn(fn))
+		if !ok {
+			return false
+		}
+		// the test always runs in its function ...
+		for _, b := range fn.Blocks {
+			if len(b.Instrs) == 0 || b == fn.Recover {
+				continue
+			}
+			if r2, ok := b.Instrs[len(b.Instrs)-1].(*ssa.Return); ok && !ifi.Block().Dominates(r2.Block()) {
+				return false
+			}
+		}
+		// ... and that function runs before the return: it is the getter itself, or a
+		// literal created (and handed to a call) on every path to the return
+		if fn != ret.Parent() {
+			okCall := false
+			allInstrs(ret.Parent(), func(in ssa.Instruction) {
+				if mc, ok := in.(*ssa.MakeClosure); ok && mc.Fn == ssa.Value(fn) {
+					for _, rr := range refs(mc) {
+						if call, ok := rr.(*ssa.Call); ok && instrDominates(call, ret) {
+							okCall = true
+						}
+					}
+				}
+			})
+			if !okCall {
+				return false
+			}
+		} else if !ifi.Block().Dominates(ret.Block()) {
+			return false
+		}
+		n++
+	}
+	return n > 0
+}
+
+// condsMayConcern: some branch condition dominating b is computed (through
+// phis, comparisons, flags returned by the same call, loads of the same
+// variables) from v or from something produced together with v — so a missing
+// recognised nil test is not positively an untested return.
+func (x *c19) condsMayConcern(b *ssa.BasicBlock, v ssa.Value) bool {
+	related := func(o ssa.Value) bool {
+		if c19SameSource(o, v) {
+			return true
+		}
+		oe, ok1 := o.(*ssa.Extract)
+		ve, ok2 := v.(*ssa.Extract)
+		return ok1 && ok2 && oe.Tuple == ve.Tuple
+	}
+	seen := map[ssa.Value]bool{}
+	var dep func(o ssa.Value, depth int) bool
+	dep = func(o ssa.Value, depth int) bool {
+		if o == nil || depth > 8 || seen[o] {
+			return false
+		}
+		seen[o] = true
+		if related(o) {
+			return true
+		}
+		switch t := o.(type) {
+		case *ssa.UnOp:
+			if t.Op == token.MUL {
+				if cell, ok := t.X.(*ssa.Alloc); ok {
+					for _, st := range c19CellStores(cell) {
+						if dep(st.Val, depth+1) {
+							return true
+						}
+						// a variable assigned under a condition that concerns v
+						if x.condsMayConcernAt(st.Block(), dep, depth+1) {
+							return true
+						}
+					}
+				}
+				return false
+			}
+			return dep(t.X, depth+1)
+		case *ssa.BinOp:
+			return dep(t.X, depth+1) || dep(t.Y, depth+1)
+		case *ssa.Phi:
+			for i, e := range t.Edges {
+				if dep(e, depth+1) {
+					return true
+				}
+				// a value chosen by a branch that concerns v
+				if i < len(t.Block().Preds) {
+					for _, dc := range c19EdgeConds(t.Block().Preds[i], t.Block()) {
+						if dep(dc.If.Cond, depth+1) {
+							return true
+						}
+					}
+				}
+			}
+		case *ssa.Extract:
+			return dep(t.Tuple, depth+1)
+		case *ssa.Call:
+			for _, a := range t.Call.Args {
+				if dep(a, depth+1) {
+					return true
+				}
+			}
+		case *ssa.ChangeType:
+			return dep(t.X, depth+1)
+		case *ssa.MakeInterface:
+			return dep(t.X, depth+1)
+		}
+		return false
+	}
+	return x.condsMayConcernAt(b, dep, 0)
+}
+
+func (x *c19) condsMayConcernAt(b *ssa.BasicBlock, dep func(ssa.Value, int) bool, depth int) bool {
+	for _, dc := range domConds(b) {
+		if dep(dc.If.Cond, depth) {
+			return true
+		}
+	}
+	return false
 }
